@@ -76,6 +76,11 @@ def run(chk):
     chk.attempt("E9", lambda: main_wraps(chk, P))
     chk.attempt("E10", lambda: documented_valid(chk, P))
     chk.attempt("E11", lambda: spline_guards(chk, P))
+    chk.rule("C16.E13", "names in [Potential-Form] that the expression library refuses (a parameter or form named like another form, "
+                        "an exprtk constant or built-in) give configuration errors; clash-free definitions are accepted", 5)
+    chk.rule("C16.E14", "no assert statement guards user input on the configuration path (AssertionError is an internal exception)", 1)
+    chk.attempt("E13", lambda: name_clashes(chk, P))
+    chk.attempt("E14", lambda: no_asserts(chk, P))
     chk.attempt("E12", lambda: unknown_names(chk, P))
     chk.attempt("E12t", lambda: table_form_arity(chk, P))
     chk.assume("Python can raise from almost anything; this is conformance of the enumerated input partitions and rules, "
@@ -716,3 +721,78 @@ def table_form_arity(chk, P):
     o = outcome(lambda: I.call(pf, [Num(ep.const(1))], {}))
     chk.ob("C16.E12", "a table form given a parameter -> configuration error", classify(P, o) == "config-error", site=site, found=classify(P, o),
            expect="config-error", key="C16.E12|table-form|parameter")
+
+
+# ---------------------------------------------------------------------------
+class _FormsCfg(object):
+    """a parser that has only custom formulae"""
+    def __init__(self, forms):
+        self.forms = forms
+
+    def get_table_form(self, I):
+        return ListV([], "list")
+
+    def get_potential_form(self, I):
+        return self.forms
+
+
+def name_clashes(chk, P):
+    from .c06 import _form_tuple_hook
+    reg = P.cls("atsim.potentials.config._potential_form_registry", "Potential_Form_Registry")
+    site = P.cls("atsim.potentials.config._cexprtk_potential_function", "_Cexptrk_Potential_Function").lookup("__init__").site()
+
+    def attempt(forms):
+        """forms: [(label, [parameter names after r])]; the registry is built and every form evaluated once"""
+        I = F.make_interp(P)
+        M.install_cexprtk(I)
+        I.hooks["atsim.potentials.config._common:make_potential_form_tuple_from_function"] = _form_tuple_hook(P)
+        mod = P.module(COMMON)
+        pft = I.module_global(mod, "PotentialFormTuple")
+        sig = I.module_global(mod, "PotentialFormSignatureTuple")
+        fl = ListV([I.call(pft, [I.call(sig, [Const(n), ListV([Const("r")] + [Const(p) for p in ps], "list"), FALSE], {}), Const("r")], {})
+                    for n, ps in forms], "list")
+
+        def go():
+            r = I.instantiate(reg, [PyObjV(_FormsCfg(fl))], {"register_standard": TRUE, "register_pymath_functions": TRUE}, None)
+            for n, ps in forms:
+                pf = I.getitem(r, Const(n))
+                f = I.call(pf, [Num(ep.const(1)) for _ in ps], {})
+                I.call(f, [Num(ep.const(2))], {})
+            return r
+        return outcome(go)
+    cases = [
+        ("a parameter named like another custom form", [("g", ["a"]), ("f", ["g"])], True),
+        ("a parameter named like an exprtk constant (pi)", [("f", ["pi"])], True),
+        ("two forms, one named like an exprtk constant (pi)", [("pi", ["a"]), ("f", ["a"])], True),
+        ("two forms, one named like a built-in exprtk function (exp)", [("exp", ["a"]), ("f", ["a"])], True),
+        ("clash-free forms sharing parameter names", [("g", ["a", "b"]), ("f", ["a", "b"])], False),
+    ]
+    for what, forms, clash in cases:
+        o = attempt(forms)
+        got = classify(P, o)
+        want = "config-error" if clash else "accepted"
+        chk.ob("C16.E13", "%s -> %s" % (what, want), got == want, site=site, found=got if got != "other-exception" else o, expect=want,
+               key="C16.E13|%s" % what)
+
+
+def no_asserts(chk, P):
+    mods = [m for m in P.modules.values() if m.name.startswith("atsim.potentials.config") or m.name == MODS
+            or m.name.startswith("atsim.potentials.tools.potable")]
+    nfun = 0
+    bad = []
+    for fi in P.all_functions():
+        if fi.module not in mods:
+            continue
+        nfun += 1
+        for node in ast.walk(fi.node):
+            if isinstance(node, ast.Assert) and _owner(fi.node, node) is fi.node:
+                t = node.test
+                if isinstance(t, ast.Constant) and t.value:
+                    continue
+                bad.append((fi, node))
+    for fi, node in bad:
+        chk.ob("C16.E14", "%s: assert %s" % (fi.qualname, ast.unparse(node.test)[:60]), False, site=fi.site(node),
+               found="assert on the configuration path", expect="a ConfigurationException for the condition the user can cause",
+               key="C16.E14|%s|%s" % (fi.fq, ast.unparse(node.test)[:40]))
+    chk.ob("C16.E14", "%d functions on the configuration path contain no assert statement" % nfun, not bad, site="atsim/potentials/config",
+           found=len(bad) or None, expect=0, key="C16.E14|summary")
